@@ -315,6 +315,19 @@ impl<'tx> TxInner<'tx> {
                 self.pages = Pages::new(data, self.db.inner.pagesize);
             }
 
+            // The new meta page will go to the slot that does not hold the current meta data.
+            // If that slot is not a valid meta page, it is the remains of a commit that was
+            // interrupted by a power loss (a torn write). Writing over it could be torn too, and
+            // the words of the two torn writes could add up to the interrupted commit's meta
+            // page, whose pages this commit reuses. Wipe the slot first; the sync that follows
+            // the data pages makes that durable before the new meta page is written.
+            let meta_page_id = u64::from(self.meta.meta_page == 0);
+            if !self.db.inner.meta_page_valid(meta_page_id)? {
+                let zeros = vec![0; self.db.inner.pagesize as usize];
+                file.seek(SeekFrom::Start(self.db.inner.pagesize * meta_page_id))?;
+                file.write_all(zeros.as_slice())?;
+            }
+
             // write the data to the file
             {
                 // freelist.pages is a BTreeMap so we're writing the pages in order to minmize
